@@ -407,3 +407,77 @@ func init() {
 	pbt.RegisterEnum(pbt.Enum[textCase]{Name: "small-text-exhaustive-5", Tiers: "quick", Exhaustive: true, Each: func(e func(textCase)) { eachSmallText(5, e) }, Check: checkText})
 	pbt.RegisterEnum(pbt.Enum[textCase]{Name: "small-text-exhaustive-7", Tiers: "thorough", Exhaustive: true, Each: func(e func(textCase)) { eachSmallText(7, e) }, Check: checkText})
 }
+
+// ---------------------------------------------------------------------------------------------
+// the limits also hold when the packer compresses: an over-long name whose tail is already in the
+// compression map must be refused, not written as "a few labels + pointer"
+
+type behindCase struct {
+	Labels [][]byte // the whole name
+	Cut    int      // the suffix Labels[Cut:] is packed first and is what the pointer can refer to
+}
+
+func checkBehindPointer(c behindCase) error {
+	n := wm.Name(c.Labels)
+	for _, l := range n {
+		if len(l) < 1 || len(l) > 63 {
+			return nil
+		}
+	}
+	if c.Cut < 1 || c.Cut >= len(n) {
+		return nil
+	}
+	suffix := wm.Name(n[c.Cut:])
+	if !suffix.Valid() {
+		return nil
+	}
+	valid := n.Valid()
+	pbt.Note(wm.EncodeName(n), true, fmt.Sprintf("valid=%v", valid), fmt.Sprintf("wirelen=%d", lenBucket(n.WireLen())))
+	buf := make([]byte, 1024)
+	comp := map[string]int{}
+	off, err := dns.PackDomainName(wm.EscName(suffix), buf, 0, comp, true)
+	if err != nil {
+		return pbt.Errf("PackDomainName(%q) failed: %v", short(wm.EscName(suffix)), err)
+	}
+	off2, err := dns.PackDomainName(wm.EscName(n), buf, off, comp, true)
+	if valid != (err == nil) {
+		return pbt.Errf("PackDomainName with compression of a name of %d wire octets (tail of %d octets already in the message): err=%v, the reference says valid=%v", n.WireLen(), suffix.WireLen(), err, valid)
+	}
+	if err == nil {
+		got, _, rerr := wm.ReadName(buf[:off2], off)
+		if rerr != nil || !got.Equal(n) {
+			return pbt.Errf("compressed name reads back as %q (err=%v), want %q", short(wm.EscName(got)), rerr, short(wm.EscName(n)))
+		}
+		if _, _, uerr := dns.UnpackDomainName(buf[:off2], off); uerr != nil {
+			return pbt.Errf("PackDomainName emitted a compressed name that UnpackDomainName rejects: %v", uerr)
+		}
+	}
+	// the same through a whole message
+	m := new(dns.Msg)
+	m.Compress = true
+	m.Question = []dns.Question{{Name: wm.EscName(suffix), Qtype: 1, Qclass: 1}}
+	m.Answer = []dns.RR{&dns.NS{Hdr: dns.RR_Header{Name: wm.EscName(n), Rrtype: dns.TypeNS, Class: 1}, Ns: wm.EscName(n)}}
+	p, perr := m.Pack()
+	if valid != (perr == nil) {
+		return pbt.Errf("Msg.Pack (compressed) with an owner name of %d wire octets whose tail is the question name: err=%v, the reference says valid=%v", n.WireLen(), perr, valid)
+	}
+	if perr == nil {
+		var u dns.Msg
+		if uerr := u.Unpack(p); uerr != nil {
+			return pbt.Errf("Msg.Pack emitted a message that Unpack rejects: %v", uerr)
+		}
+	}
+	return nil
+}
+
+func genBehind(t *rapid.T) behindCase {
+	n := gen.NameOfWireLen(t, rapid.IntRange(240, 275).Draw(t, "wl"), gen.NameOpts{Plain: rapid.Bool().Draw(t, "plain")})
+	if len(n) < 2 {
+		n = append(wm.Name{[]byte("x")}, n...)
+	}
+	return behindCase{Labels: n, Cut: rapid.IntRange(1, len(n)-1).Draw(t, "cut")}
+}
+
+func init() {
+	pbt.Register(pbt.Sub[behindCase]{Name: "limit-behind-pointer", Weight: 20, Gen: genBehind, Check: checkBehindPointer})
+}
